@@ -30,6 +30,7 @@ META = dict(
 META["text"] += ' (R6, N) read_cvrs_directory hands each of its options to the parameter of read_cvrs with the same name and concatenates the records of every export file in sorted order.'
 META["text"] += " R4 refutes grouping a candidate's marks with itertools.groupby over unsorted marks."
 META["text"] += " R4 also: the mark loop runs over the contest's marks themselves. R6: strict hand-over (the callee gets the caller's own include_groups / pool_groups)."
+META["text"] += ' (R7, N, frame condition on arguments) an import reads its options: every function in scope changes the objects it is handed only in the ways confirmed for it (aud.ARG_EFFECTS); references are followed through aliases, elements, attributes, loop variables, .get/.items/.values and np.asarray, resolved by the bindings that reach the use.'
 
 SPEC_MARK = '''
 def spec(present, old, rank):
@@ -44,6 +45,8 @@ def spec(present, old, rank):
 
 
 def run(chk):
+    from .. import aud as _aud8
+    _aud8.argument_effects(chk, 'C19.R7', 'shangrla/formats/Dominion.py', 'an import reads its options', only=None)
     chk.explain("R1 one record per included session in file order (paths); R2 identifier / tally pool / pooled flag forms; R3 literal "
                 "precedence list filtered by presence; R4 mark filter and smallest-positive-rank update table; R5 both layouts.")
     chk.trust("symx translation and exhaustive tables", "min() of two numbers is commutative and associative")
